@@ -11,7 +11,9 @@ from .common import Violation, log
 TRUSTED = [
     "Lean 4.33 kernel; Mathlib v4.33 (single modules)",
     "axioms: propext, Classical.choice, Quot.sound (audited by #print axioms on every run)",
-    "translator: tools/gen_from_source.py (constants, index expressions, dispatch tables, control text), tools/cxx2lean.py + tools/gen_{solver,init}_code.py (statement-by-statement translation of the loop nests of the solver's numeric functions, the loop control and the initialisers), tools/gen_{main,run,graph,cli,utils}_code.py (validation part translated; glue code: statement sequence from the source, exact statement text -> meaning by table); statements before/after translated loops pinned literally",
+    "translator: tools/gen_from_source.py (constants, index expressions, dispatch tables, control text), tools/cxx2lean.py + tools/gen_{solver,init}_code.py (statement-by-statement translation of the loop nests of the solver's numeric functions, the loop control and the initialisers), tools/gen_{main,run,graph,cli,utils,writer}_code.py (validation part and the three writers translated; glue code: statement sequence from the source, exact statement text -> meaning by table; the dimensions of every container in the index-safety propositions are part of the function descriptions); statements before/after translated loops, the two reader bodies, the parameter lists and the class members pinned literally",
+    "outside the front-end model's domain (judged on the implementation side only): negative option values (std::stoi reads a sign; the model's stoi is the decimal naturals), --s random (clock)",
+    "vlib/pyxsim.py: the .pyx run() rewritten to plain Python with a numpy stand-in (failing-input search only; the dispatch theorem is over the regenerated table)",
     "harness/harness.cpp + vlib/*.py (correspondence harness, comparison, monitors)",
     "real-vs-double gap: theorems are over the model at R; the code and the correspondence run at IEEE double",
     "modelled, not verified: boost adjacency_list ordering, std::map/std::set, libstdc++ mt19937/uniform_real_distribution, glibc log",
